@@ -159,6 +159,11 @@ pub struct Shadow {
     /// aux stack tags parallel to model.aux: (begin pc, depth at begin)
     aux_tags: Vec<(usize, usize)>,
     aux_tag_stack: Vec<Vec<(usize, usize)>>,
+    /// the shadow's own record of open atomic groups, independent of where the VM keeps its
+    /// marks: (pc of the BeginAtomic, branch depth when it executed); rolled back and committed
+    /// with the model's checkpoints
+    marks: Vec<(usize, usize)>,
+    marks_stack: Vec<Vec<(usize, usize)>>,
     expected_cut: Option<usize>,
     failneg_target: Option<usize>,
     cut_seen: bool,
@@ -199,6 +204,8 @@ impl Shadow {
                 cur_is_end: false,
                 aux_tags: Vec::new(),
                 aux_tag_stack: Vec::new(),
+                marks: Vec::new(),
+                marks_stack: Vec::new(),
                 expected_cut: None,
                 failneg_target: None,
                 cut_seen: false,
@@ -330,6 +337,8 @@ impl Observer for Shadow {
         self.analyse_program(info.prog);
         self.aux_tags.clear();
         self.aux_tag_stack.clear();
+        self.marks.clear();
+        self.marks_stack.clear();
         self.expected_cut = None;
         self.failneg_target = None;
         self.cut_seen = false;
@@ -384,6 +393,37 @@ impl Observer for Shadow {
                     );
                 }
                 self.res.borrow_mut().stats.neglook_unwinds_checked += 1;
+            }
+            match insn {
+                Insn::BeginAtomic => self.marks.push((pc, st.depth())),
+                Insn::EndAtomic => {
+                    let expected_begin = self.end_to_begin.get(&pc).copied();
+                    match self.marks.pop() {
+                        Some((bpc, depth)) if Some(bpc) == expected_begin => {
+                            // what this commit must cut to, whatever the VM remembered
+                            self.expected_cut = Some(depth);
+                        }
+                        Some((bpc, depth)) => {
+                            let detail = format!(
+                                "EndAtomic at pc {} closes the group opened by BeginAtomic at pc {} (depth {}), its own BeginAtomic is at pc {:?}",
+                                pc, bpc, depth, expected_begin
+                            );
+                            if self.cond_begins.contains(&bpc) {
+                                // the listed finding: a conditional's false path never closed its group
+                                let mut r = self.res.borrow_mut();
+                                if r.leaked_cond_marker.is_none() {
+                                    r.leaked_cond_marker = Some(detail);
+                                }
+                                drop(r);
+                                self.dead = true;
+                                return;
+                            }
+                            self.fail("atomic-wrong-marker", detail);
+                        }
+                        None => self.fail("atomic-wrong-marker", format!("EndAtomic at pc {} with no atomic group open", pc)),
+                    }
+                }
+                _ => {}
             }
             if let Insn::FailNegativeLookAround = insn {
                 let own = self.failneg_split.get(&pc).copied();
@@ -533,6 +573,7 @@ impl Observer for Shadow {
                 let mok = self.model.push(pc, ix, self.cur_pc);
                 if mok {
                     self.aux_tag_stack.push(self.aux_tags.clone());
+                    self.marks_stack.push(self.marks.clone());
                 }
                 if mok != ok {
                     self.fail(
@@ -552,6 +593,9 @@ impl Observer for Shadow {
                     Some((mpc, mix)) => {
                         if let Some(t) = self.aux_tag_stack.pop() {
                             self.aux_tags = t;
+                        }
+                        if let Some(m) = self.marks_stack.pop() {
+                            self.marks = m;
                         }
                         if (mpc, mix) != (pc, ix) {
                             self.fail(
@@ -623,6 +667,14 @@ impl Observer for Shadow {
                         }
                         self.fail("atomic-wrong-marker", detail);
                     }
+                    if let Some(e) = self.expected_cut {
+                        if e != tag_depth {
+                            self.fail(
+                                "atomic-marker-value",
+                                format!("EndAtomic at pc {}: the VM remembered depth {} for this group, it was entered at depth {}", self.cur_pc, tag_depth, e),
+                            );
+                        }
+                    }
                     self.expected_cut = Some(tag_depth);
                 }
             }
@@ -661,6 +713,7 @@ impl Observer for Shadow {
                 }
                 self.model.cut(count);
                 self.aux_tag_stack.truncate(count);
+                self.marks_stack.truncate(count);
             }
         }
         if let Some((class, detail)) = compare(st, &self.model) {
